@@ -312,6 +312,9 @@ def P(e, o):
     if k == 'call':
         fn = P(e.a, o) if isinstance(e.a, E) else e.a
         if o.uf and e.extra and e.extra.get('powint'):
+            if e.extra['powint'] == 2:
+                # x**2, gsl_pow_2(x) and x*x are the same product (one rounding): one canonical term
+                return 'bx_mul(%s, %s)' % (P(e.args[0], o), P(e.args[0], o))
             return 'bx_uf_powi(%s, %d)' % (P(e.args[0], o), e.extra['powint'])
         return '%s(%s)' % (fn, ', '.join(P(x, o) for x in e.args))
     if k == 'cast':
